@@ -25,7 +25,7 @@ EXPLANATION = 'textbook specification EAO/Spec/Textbook.lean (meant to be read);
 
 
 def scenarios(seed, tier):
-    n = 220 if tier == 'quick' else 2500
+    n = 440 if tier == 'quick' else 2640
     rnd = random.Random(seed * 7919 + 2)
     for i in range(n):
         r1 = random.Random(rnd.getrandbits(48))
